@@ -3,10 +3,7 @@
 import importlib, json, os, sys
 sys.path.insert(0, os.path.dirname(os.path.abspath(__file__)))
 ALL = ['C%02d' % i for i in range(1, 21)]
-NA = {
-    'C17': 'Equality of whole density-estimation refinement runs with reuse on/off: the state lives in boolean-mask/argsort numpy code '
-           'and the results pass through LAPACK solves; no symbolic encoding within reach (DESIGN.md section 5).',
-}
+NA = {}
 PENDING = 'check not built yet in this session (solver-based harness planned in DESIGN.md section 4); not claimed until it exists'
 checks, na = [], []
 for pid in ALL:
